@@ -84,12 +84,12 @@ Definition pool (k : Z) : value :=
   match k with
   | 0 => VStr true (cps "<b>&'""x</b>"%string)
   | 1 => VUndef
-  | 2 => VPlain 2
+  | 2 => VPlain 2 (cps "<dyn 2>"%string)
   | 3 => VNone
   | 4 => VStr false (cps "plain <i>"%string)
   | 5 => VI64 42
   | 6 => VStr true []
-  | 7 => VPlain 7
+  | 7 => VPlain 7 (cps "<dyn 7>"%string)
   | 8 => VStr true (cps "a long safe string, more than twenty-two bytes <&>"%string)
   | 9 => VSeq false [VStr true (cps "<s>"%string); VUndef]
   | _ => VUndef
@@ -147,7 +147,7 @@ Fixpoint enc_value (v : value) : list Z :=
   | VBytes l => 9 :: enc_str l
   | VSeq tup l => 10 :: b2z tup :: lenZ l :: flat_map enc_value l
   | VMap es => 11 :: lenZ es :: flat_map (fun e => enc_value (fst e) ++ enc_value (snd e)) es
-  | VPlain id => [12; id]
+  | VPlain id _ => [12; id]
   | VInvalid => [13]
   end.
 
@@ -220,6 +220,67 @@ Definition run_tojson (inp : list Z) : list Z :=
   | _ => [9]
   end.
 
+(* --- re-entrancy programs (c16.rs::Node): `200 0 ntop node..` --- *)
+Fixpoint dec_node (fuel : nat) (l : list Z) : dres node :=
+  match fuel with
+  | O => None
+  | S f =>
+      let many := fun (l : list Z) =>
+        match dec_many (dec_node f) l with
+        | Some (xs, r) => Some (fold_right NCons NNil xs, r)
+        | None => None
+        end in
+      match l with
+      | 0 :: z :: r => Some (NInt z, r)
+      | 1 :: k :: r => Some (NEmb (pool k), r)
+      | 2 :: r => Some (NProbe, r)
+      | 3 :: r => dmap NSeq (many r)
+      | 4 :: r => dmap NTuple (many r)
+      | 5 :: r => dmap NMap (many r)
+      | 6 :: r => dmap NStruct (many r)
+      | 7 :: r => dmap NNVar (dec_node f r)
+      | 8 :: r => dmap NTVar (many r)
+      | 9 :: r => dmap NSVar (many r)
+      | 10 :: r => dmap NSome (dec_node f r)
+      | 11 :: r => dmap NNested (dec_node f r)
+      | 12 :: r => dmap NNestedDrop (dec_node f r)
+      | 13 :: r => dmap NNestedCatch (dec_node f r)
+      | 14 :: r => dmap NThread (dec_node f r)
+      | 15 :: r => Some (NFail, r)
+      | 16 :: r => Some (NPanic, r)
+      | _ => None
+      end
+  end.
+
+Definition enc_res (r : res value) : list Z :=
+  match r with ROk v => 0 :: enc_value v | RErr => [1] | RPanic => [2] end.
+
+(* the conversions one after the other on one thread, starting from fresh thread-locals;
+   after each: serializing_for_value() as seen outside *)
+Fixpoint run_tops (ys : list node) (st : cstate) : list Z :=
+  match ys with
+  | [] => [b2z (flag st)]
+  | y :: r => let '(res, st') := convert y st in enc_res res ++ b2z (flag st') :: run_tops r st'
+  end.
+
+Definition run_prog (inp : list Z) : list Z :=
+  match inp with
+  | _ :: _ :: r => match dec_many (dec_node (S (length r))) r with
+                   | Some (ys, []) => 0 :: lenZ ys :: run_tops ys fresh_thread
+                   | _ => [9]
+                   end
+  | _ => [9]
+  end.
+
+Definition spec_prog (inp : list Z) : list Z :=
+  match inp with
+  | _ :: _ :: r => match dec_many (dec_node (S (length r))) r with
+                   | Some (ys, []) => 0 :: lenZ ys :: flat_map (fun y => enc_res (ideal_convert y) ++ [0]) ys ++ [0]
+                   | _ => [9]
+                   end
+  | _ => [9]
+  end.
+
 Open Scope string_scope.
 Definition runners : list (string * (list Z -> list Z)) :=
-  [ ("c16", run); ("c16-spec", spec); ("c16-tojson", run_tojson) ].
+  [ ("c16", run); ("c16-spec", spec); ("c16-tojson", run_tojson); ("c16-prog", run_prog); ("c16-prog-spec", spec_prog) ].
